@@ -40,8 +40,9 @@ class Check(PropertyCheck):
     def rule(self):
         return ("completeness: boxes of widths 0..W x heights 0..H (quick 20x10, thorough 60x30) x offsets x corner styles "
                 "(sharp +, rounded . , ' `, box-drawing) x edge styles (- ~ ; | with : ! stretches) x interior label text; "
-                "soundness: every rect in the output of random grids over {- | + . ' ` , ~ : ! space} must have all four "
-                "edges covered by border characters; non-trivial = every case, distinct by input")
+                "soundness: every rect in the output of random grids over {- | + . ' ` , ~ : ! space} and of near-boxes (boxes "
+                "with legs, arms, heads, rungs, gaps, a missing corner, a shared side) must have all four edges covered by "
+                "border characters; non-trivial = every case, distinct by input")
 
     def boxes(self):
         W, H = self.scale(20, 60), self.scale(10, 30)
@@ -86,10 +87,66 @@ class Check(PropertyCheck):
         out += ["|  |\n+--+\n|  |\n+--+\n|  |", "|-|\n|-|", "+--+--\n|  |\n+--+", "+--+\n|  |\n+--+--"]
         return out
 
+    def near_boxes(self, n):
+        """boxes with something added or taken away: legs, arms, heads (sides that overhang the corners, on one or on
+        both lines of a pair), rungs, gaps, shared sides. Whatever comes out, a rect may only appear where all four
+        edges are drawn."""
+        out = []
+        r = self.rng
+        for _ in range(n):
+            w, h = r.range(1, 6), r.range(1, 4)
+            corners = r.choice(SHARP * 3 + ROUND)
+            rows = make_box(w, h, corners, r.choice("--~"), ["|"] * h).split("\n")
+            pad = 0
+            for _m in range(r.range(1, 2)):
+                m = r.below(8)
+                k = r.range(1, 3)
+                if m == 0:      # legs under both bottom corners (or one)
+                    both = r.chance(2, 3)
+                    for _i in range(k):
+                        rows.append(" " * pad + "|" + " " * w + ("|" if both else ""))
+                elif m == 1:    # arms to the right of both right corners (or one)
+                    rows[0] += "-" * k
+                    if r.chance(2, 3):
+                        rows[h + 1] += "-" * k
+                elif m == 2:    # heads above the top corners
+                    both = r.chance(2, 3)
+                    for _i in range(k):
+                        rows.insert(0, " " * pad + "|" + " " * w + ("|" if both else ""))
+                elif m == 3:    # arms to the left
+                    top = next((i for i, x in enumerate(rows) if x.strip() and x.strip()[0] in "+.,"), 0)
+                    both = r.chance(2, 3)
+                    rows = [(("-" * k) if (i == top or (both and i == top + h + 1)) else " " * k) + x for i, x in enumerate(rows)]
+                    pad += k
+                elif m == 4 and w >= 2:   # a gap in one side
+                    i = r.choice([j for j, x in enumerate(rows) if "-" in x or "~" in x] or [0])
+                    x = rows[i]
+                    g = x.find("-") if "-" in x else x.find("~")
+                    if g >= 0:
+                        rows[i] = x[:g] + " " + x[g + 1:]
+                elif m == 5 and h >= 2:   # a rung
+                    i = r.range(1, h - 1)
+                    body = [j for j, x in enumerate(rows) if x.strip().startswith("|")]
+                    if body:
+                        j = r.choice(body)
+                        rows[j] = " " * pad + "+" + "-" * w + "+"
+                elif m == 6:    # a second box sharing the right side
+                    w2 = r.range(1, 4)
+                    rows = [x + (("-" * w2 + "+") if x.strip()[:1] in "+.,'`" and len(x.strip()) > 1 and i in (0, len(rows) - 1)
+                                 else (" " * w2 + "|") if x.strip().startswith("|") else "") for i, x in enumerate(rows)]
+                else:           # a corner missing
+                    i = r.choice([0, len(rows) - 1])
+                    x = rows[i] if rows[i].strip() else "+"
+                    rows[i] = (x[:-1] + " ") if r.chance(1, 2) else (" " * (len(x) - len(x.lstrip()) + 1) + x.lstrip()[1:])
+            out.append(gen.place("\n".join(x.rstrip() for x in rows), r.below(6), r.below(3)))
+        out += ["+--+\n|  |\n+--+\n|  |", "+--+-\n|  |\n+--+-", "|  |\n+--+\n|  |\n+--+", "-+--+\n |  |\n-+--+"]
+        return out
+
     def correspondence(self):
         dis = []
         cases = [(gen.place(b[0], b[5], b[6]), backend.Settings(b=False, s=False, d=False), "settings") for b in self.boxes()[:: self.scale(2, 1)]]
         cases += [(t, backend.Settings(b=False, s=False, d=False), "settings") for t in self.random_grids(self.scale(500, 8000))]
+        cases += [(t, backend.Settings(b=False, s=False, d=False), "settings") for t in self.near_boxes(self.scale(300, 5000))]
         res = backend.run_full(cases)
         for c, r in zip(cases, res):
             self.evaluations += 1
@@ -184,6 +241,7 @@ class Check(PropertyCheck):
     def search(self, boost=1):
         fails = self.oracle_complete(self.boxes())
         fails += self.oracle_sound(self.random_grids(self.scale(3000, 50000) * boost))
+        fails += self.oracle_sound(self.near_boxes(self.scale(1500, 25000) * boost))
         return fails
 
     def replay_case(self, case):
